@@ -6,6 +6,11 @@ ops (hex strings, `-` = empty):
                                           (<faulty> bitmask and <app> mode only concern the Go side's monitors/callbacks)
   reg <w> <m> <id>                        RegisterMessageIDFuncs at member m of world w
   sreq <w> <m> <from> <id> <pay>          handleSigRequest at m with transport identity `from`
+  sreq2 <w> <m> <from> <id> <payA> <payB> <ab|ba>
+                                          two overlapping signature requests of one requester and id. The model's
+                                          handler is atomic, so the admissible outcomes are the two sequential
+                                          orders; the last token (written by the Go driver from what it observed)
+                                          says which one to run. Anything else the implementation does is a diff.
   msg <w> <m> <from> <id> <pay> <sigs>    handleMessage at m with transport identity `from`
   bc <w> <a> <id> <pay> <ov>              client a calls Broadcast; honest transport except overrides
   hash <sess> <id> <typeUrl> <value>      SHA-256 of the model's hash-input encoding
@@ -201,6 +206,24 @@ def step (d : DState) (line : String) : DState × String :=
       | .sig r => (d1, s!"{sigRespStr r} d={dl}")
       | _ => (d1, "?")
     | _, _, _, _, _ => (d, "bad-op")
+  | ["sreq2", a, b, c, e, f, g, ord] =>
+    match a.toNat?, b.toNat?, c.toNat?, parseBytes e, parsePay f, parsePay g with
+    | some w, some m, some frm, some id, some pa, some pb =>
+      if w > 1 || m ≥ d.n || !(ord == "ab" || ord == "ba") then (d, "bad-op") else
+      let (p1, p2) := if ord == "ab" then (pa, pb) else (pb, pa)
+      let (x1, o1) := CharonV.Bcast.step symC p1.env (d.cfg w) (d.world w) (.sigReq m frm id p1.pay)
+      let (x2, o2) := CharonV.Bcast.step symC p2.env (d.cfg w) x1 (.sigReq m frm id p2.pay)
+      let (oa, ob) := if ord == "ab" then (o1, o2) else (o2, o1)
+      let d1 := d.setWorld w x2
+      let show1 (dd : DState) (o : Out SymSig) : DState × String :=
+        match o with
+        | .sig (.ok s) => ({ dd with pool := dd.pool.push s }, s!"ok s{dd.pool.size}")
+        | .sig r => (dd, sigRespStr r)
+        | _ => (dd, "?")
+      let (d2, sa) := show1 d1 oa
+      let (d3, sb) := show1 d2 ob
+      (d3, s!"{sa} {sb} d={(x2.mem m).dedup.length}")
+    | _, _, _, _, _, _ => (d, "bad-op")
   | ["msg", a, b, c, e, f, g] =>
     match a.toNat?, b.toNat?, c.toNat?, parseBytes e, parsePay f with
     | some w, some m, some frm, some id, some pt =>
